@@ -44,6 +44,7 @@ PLAN = {
                  "min_counters": {"fixed_tables": 150000}},
 }
 KNOWN_INI = "ini-indented-comment-after-option-joins-the-value"
+KNOWN_INI_REPEAT = "ini-repeated-section-inherited-default-overrides-own-option"
 _UID = itertools.count()
 CELLW = ["a", "b", "x1", "foo", "bar baz", "a  b", "1.5", "-", "/dev/sda1", "10%", "x=y", "q:r", "UP", "two  gaps  here", "é", "[k]", "#7", "0"]
 HEADERS = ["NAME", "ME", "E", "AB", "B", "STATE", "TE", "SIZE", "ZE", "Used", "sed", "Mounted", "ount", "ID", "D", "TYPE", "PE", "PID", "Col1", "l1", "X"]
@@ -53,7 +54,16 @@ VALCH = [c for c in string.printable if c not in "\n\r\t\x0b\x0c#"]
 
 def directed(tier):
     return [{"kind": "fixed", "headers": ["NAME", "ME", "E"], "widths": [6, 5, 3], "rows": [["a", "b", "c"], ["", "x y", ""], ["long1", "", "z"]],
-             "junk": [], "footer": [], "subst": None, "rstrip": False}]
+             "junk": [], "footer": [], "subst": None, "rstrip": False},
+            # known finding: indented comment directly after an option
+            {"kind": "ini", "doc": [["section", "main", "[%s]"], ["option", "key", "value", " = ", []], ["indented_comment", "    # indented comment"],
+                                    ["option", "other", "x", " = ", []], ["indented_comment", "  ; semi"], ["option", "third", "3", "=", []]]},
+            # known finding: repeated section + default
+            {"kind": "ini", "doc": [["section", "s", "[%s]"], ["option", "r", "own", " = ", []], ["section", "DEFAULT", "[%s]"], ["option", "R", "dflt", " = ", []],
+                                    ["section", "s", "[%s]"], ["option", "z", "1", "=", []]]},
+            # fixed: duplicate in DEFAULT, and own option vs default in another case
+            {"kind": "ini", "doc": [["section", "DEFAULT", "[%s]"], ["option", "k", "first", "=", []], ["option", "k", "last", "=", []], ["option", "J", "inherited", "=", []],
+                                    ["section", "a", "[%s]"], ["option", "j", "own", ":", []]]}]
 
 
 def gen_case(rng, tier, idx):
@@ -460,7 +470,11 @@ def run_ini(spec, ctx):
             diff = [k for k in set(got) | set(exp) if got.get(k) != exp.get(k)]
             known = all((s, k) in tainted or ("DEFAULT", k) in tainted for k in diff) and all(
                 k in got and k in exp and got[k].startswith(exp[k]) for k in diff)
-            ctx.violation(KNOWN_INI if known else "ini-options-differ", {"document": text, "section": s,
+            nocc = sum(1 for it in spec["doc"] if it[0] == "section" and it[1] == s)
+            repeat = (not known and nocc >= 2 and defaults is not None and s != "DEFAULT" and all(
+                k in defaults and k in got and (got[k] == defaults[k] or (("DEFAULT", k) in tainted and got[k].startswith(defaults[k]))) or
+                (((s, k) in tainted or ("DEFAULT", k) in tainted) and k in got and k in exp and got[k].startswith(exp[k])) for k in diff))
+            ctx.violation(KNOWN_INI if known else (KNOWN_INI_REPEAT if repeat else "ini-options-differ"), {"document": text, "section": s,
                                                                        "got": dict((k, got.get(k)) for k in diff), "expected": dict((k, exp.get(k)) for k in diff)})
             continue
         if (s.strip() in p) is not True or s not in p:
